@@ -286,9 +286,18 @@ impl<F: Fl> CWorld<F> {
         Ok(())
     }
 
-    /// `combo` selects what each of the three callbacks returns: 0 None, 1 Some([]), 2 one attribute, 3 two attributes.
+    /// `combo` selects what each of the three callbacks returns: 0 None, 1 Some([]), 2 one attribute, 3 two attributes;
+    /// 4 and 5 depend on the item the callback is asked about (node key / source + target + value of the edge):
+    /// 4 = two attributes for even items and None for odd ones, 5 = None for even items and one attribute for odd ones.
     pub fn check_dot_attr(&self, combo: (u8, u8, u8)) -> Result<bool, Bad> {
-        let mk = |sel: u8, tag: String| -> Attrs {
+        let mk = |sel: u8, tag: String, idx: i64| -> Attrs {
+            let sel = match (sel, idx.rem_euclid(2) == 0) {
+                (4, true) => 3,
+                (4, false) => 0,
+                (5, true) => 0,
+                (5, false) => 2,
+                (s, _) => s,
+            };
             match sel {
                 0 => None,
                 1 => Some(vec![]),
@@ -302,22 +311,22 @@ impl<F: Fl> CWorld<F> {
                 Some(v) => format!(" {}", v.iter().map(|(k, x)| format!("[{}=\"{}\"]", k, x)).collect::<String>()),
             }
         };
-        let txt = match F::g_to_dot_attr(&self.g, &|| mk(combo.0, "g".into()), &|k| mk(combo.1, format!("n{}", k)), &|u, v, e| mk(combo.2, format!("e{}_{}_{}", u, v, e))) {
+        let txt = match F::g_to_dot_attr(&self.g, &|| mk(combo.0, "g".into(), 0), &|k| mk(combo.1, format!("n{}", k), k as i64), &|u, v, e| mk(combo.2, format!("e{}_{}_{}", u, v, e), u as i64 + v as i64 + e as i64)) {
             Some(t) => t,
             None => return Ok(false),
         };
         let stmts = dot_statements(&txt)?;
         let mut exp: Vec<String> = Vec::new();
-        if let Some(ga) = mk(combo.0, "g".into()) {
+        if let Some(ga) = mk(combo.0, "g".into(), 0) {
             for (k, v) in ga {
                 exp.push(format!("{}=\"{}\"", k, v));
             }
         }
         for k in self.members.keys() {
-            exp.push(format!("{}{}", k, fmt(&mk(combo.1, format!("n{}", k)))).trim().to_string());
+            exp.push(format!("{}{}", k, fmt(&mk(combo.1, format!("n{}", k), *k as i64))).trim().to_string());
         }
         for (u, v, e) in self.iterated_edges() {
-            exp.push(format!("{} -> {}{}", u, v, fmt(&mk(combo.2, format!("e{}_{}_{}", u, v, e)))).trim().to_string());
+            exp.push(format!("{} -> {}{}", u, v, fmt(&mk(combo.2, format!("e{}_{}_{}", u, v, e), u as i64 + v as i64 + e as i64))).trim().to_string());
         }
         let mut got = stmts;
         got.sort();
@@ -384,8 +393,8 @@ pub fn check_history<F: Fl>(h: &[COp], seed: u64, ctor: u8, dot_attr: bool) -> R
         w.check_dot_plain()?;
         if dot_attr {
             for a in 0..4 {
-                for b in 0..4 {
-                    for c in 0..4 {
+                for b in 0..6 {
+                    for c in 0..6 {
                         w.check_dot_attr((a, b, c))?;
                     }
                 }
